@@ -134,6 +134,17 @@ ASqrt(x) ==
            y == FMul(x.hi, rx)
            corr == FMul(ASubTT(x, ANewMul(y, y)).hi, FMul(rx, HalfW))
        IN ANewAdd(y, corr)
+\* ---- src/functions/power.rs  cbrt: two Newton steps from libm::cbrt(hi) ------------------------------
+\* libm's cbrt is not correctly rounded (error < 1 ulp), so the seed is a parameter: the small-format model
+\* quantifies over every word within one ulp of the true cube root.
+W3 == RN(DInt(3))
+ACbrtFrom(x, seed) ==
+  IF IsZeroNum(x.hi) THEN x
+  ELSE LET x0 == FromW(seed)
+           s0 == AMulTT(x0, x0)
+           x1 == ASubAssignTT(x0, ADivTT(ASubTT(AMulTT(s0, x0), x), AMulFT(W3, s0)))
+           s1 == AMulTT(x1, x1)
+       IN ASubTT(x1, ADivTT(ASubTT(AMulTT(s1, x1), x), AMulFT(W3, s1)))
 AHypot(x, y) == ASqrt(AAddTT(AMulTT(x, x), AMulTT(y, y)))
 
 \* ---- src/base.rs:266-295  powi (n given as sign + BigNat magnitude) ---------------------------
